@@ -30,6 +30,8 @@ def run(ctx):
         r2_r3_r4(ctx, facts, f)
     for f in facts.need(RS + "_size_rotation", "A", floor=2):
         size_rotation(ctx, f)
+    for f in facts.need(RS + "_clean_and_recover_files", "A", floor=2):
+        recover(ctx, facts, f)
     ctx.note("RotatingSink<JsonFileSink> adds the size of the text statement, not of the JSON line, to the tracked size (observed; value clause)")
 
 
@@ -202,3 +204,59 @@ def r2_r3_r4(ctx, facts, f):
     ctx.ob("C14.R4", site + ":rename-oldest-first", ok,
            "the rename chain visits the oldest file first (direction opposite to the insertion end), so a name is free before a younger "
            "file is moved onto it", fn=f)
+
+
+def recover(ctx, facts, f):
+    """restart: files are deleted only when asked to and only in write mode; append mode re-registers what it finds"""
+    g = f.g
+    site = "RotatingSink<%s>::_clean_and_recover_files" % inst(f)
+    modep = f.rec["params"][1]["did"]
+    rem = cpos(f, r"^std::filesystem::remove$")
+    reg = npos(f, [c for c in f.calls(r"std::deque<.*>::(emplace_front|emplace_back|push_front|push_back)") if is_this_field(call_obj(c), "_created_files")])
+    rb = branches_on_call(f, r"::remove_old_files$")
+    modes = {}
+    for bid, b in g.blocks.items():
+        c = g.term_cond(bid)
+        if c is None:
+            continue
+        core, neg = core_and_neg(c)
+        lits = [x["str"] for x in walk(core) if x["k"] == "StringLiteral"]
+        if lits and any(x["k"] == "DeclRefExpr" and x.get("did") == modep for x in walk(core)) and lits[0] in ("w", "a"):
+            eq = "==" in (core.get("callee", "") if is_call(core) else core.get("op", ""))
+            modes.setdefault(lits[0], []).append((bid, "T" if eq != neg else "F"))
+    ok = bool(rem) and bool(rb) and "w" in modes and \
+        not g.exists_path([g.entry_node], rem, avoid_edges=[(b, t) for (b, t, c) in rb]) and \
+        not g.exists_path([g.entry_node], rem, avoid_edges=modes["w"])
+    ctx.ob("C14.R5a", site + ":delete-only-when-asked", ok,
+           "old files are deleted at start-up only under remove_old_files() and open mode \"w\"", fn=f)
+    ok = bool(reg) and "a" in modes and not g.exists_path([g.entry_node], reg, avoid_edges=modes["a"]) and \
+        all(not g.exists_path([tnode(g, b)], rem, avoid_edges=[(b, other(l))]) for (b, l) in modes["a"])
+    ctx.ob("C14.R5b", site + ":append-recovers", ok,
+           "in append mode existing rotated files are re-registered (so indices continue) and nothing is deleted", fn=f)
+    srt = f.calls(r"^std::sort")
+    ok = bool(srt) and all(any(p in g.reach(reg) for p in g.positions(c)) for c in srt)
+    lam = [x for x in facts.fns if x.config == "A" and x.rec.get("parent") == f.name and any(n["k"] == "MemberExpr" and n.get("mname") == "index" for n in x.walk())]
+    asc = False
+    for l in lam:
+        for r in l.g.return_nodes():
+            cs = cmp_sides(l.g.node_ast(r).get("val"))
+            if cs and cs[0] == "<":
+                a, b = strip(cs[1], casts=True), strip(cs[2], casts=True)
+                if isnode(a) and isnode(b) and a.get("mname") == "index" and b.get("mname") == "index" and \
+                        var_ref(a.get("base")) == l.rec["params"][0]["did"] and var_ref(b.get("base")) == l.rec["params"][1]["did"]:
+                    asc = True
+    ctx.ob("C14.R5c", site + ":recovered-newest-first", ok and asc,
+           "recovered files are ordered by ascending index (newest first, the order the rename chain relies on)", fn=f)
+    ctor = [x for x in facts.fns if x.config == "A" and x.short == "quill::RotatingSink::RotatingSink" and x.rec.get("inits") and inst(x) == inst(f)]
+    if ctor:
+        c = ctor[0]
+        cg = c.g
+        rc = cpos(c, r"::_clean_and_recover_files$")
+        op = c.calls(r"::open_file$")
+        fr = npos(c, [x for x in c.calls(r"std::deque<.*>::(emplace_front|push_front)") if is_this_field(call_obj(x), "_created_files")])
+        ok = bool(rc) and bool(op) and bool(fr) and all(cg.dominates(rc, p) for p in npos(c, op)) and all(cg.dominates(npos(c, op), p) for p in fr) and \
+            all(any(is_call(x, r"::open_mode$") for x in walk(o["args"][1])) for o in op)
+        sz = npos(c, [n for n in c.walk() if n["k"] == "BinaryOperator" and n["op"] == "=" and is_this_field(n["lhs"], "_file_size") and any(is_call(x, r"::_get_file_size$") for x in walk(n["rhs"]))])
+        ctx.ob("C14.R5d", "RotatingSink<%s>::ctor:recover-open-register" % inst(f), ok and bool(sz),
+               "start-up recovers the existing files, then opens the base file in the configured mode, registers it as newest and takes "
+               "its current size (an appended-to file counts towards the limit)", fn=c)
